@@ -63,7 +63,7 @@ fam('adt', depth=3, maxstack=4,
               ('IF_LEFT', (PUSH(INT, i(1)), ('ADD',)), (('SIZE',), ('INT',))), ('SWAP',)])
 
 fam('optlist', depth=3, maxstack=4,
-    inits=[(S(INT, i(1)), S(INT, i(2))), (S(LIST(INT), lst(i(1), i(2), i(3))),), (S(OPT(INT), some(i(9))),), (S(OPT(INT), none),), (S(LIST(INT), lst()),)],
+    inits=[(S(INT, i(1)), S(INT, i(2))), (S(LIST(INT), lst(i(1), i(0), i(3))),), (S(OPT(INT), some(i(0))),), (S(OPT(INT), none),), (S(LIST(INT), lst()),)],
     alphabet=[('SOME',), ('NONE', INT), ('NIL', INT), ('CONS',), ('SIZE',), ('SWAP',), DROP(1),
               ('IF_NONE', (PUSH(INT, i(0)),), (PUSH(INT, i(1)), ('ADD',))),
               ('IF_CONS', (('SWAP',), DROP(1)), (PUSH(INT, i(-1)),)),
@@ -110,6 +110,6 @@ fam('hash', depth=3, maxstack=3,
 KI = [i(1), i(2), i(3)]
 fam('coll', depth=4, maxstack=4,
     inits=[(S(SET(INT), ('set', ())),), (S(MAP(INT, STR), ('map', ())),)],
-    alphabet=[PUSH(INT, i(2)), PUSH(INT, i(1)), PUSH(INT, i(3)), PUSH(BOOL, T_), PUSH(BOOL, F_), PUSH(OPT(STR), some(s('v'))), PUSH(OPT(STR), some(s('w'))),
+    alphabet=[PUSH(INT, i(2)), PUSH(INT, i(1)), PUSH(INT, i(3)), PUSH(BOOL, T_), PUSH(BOOL, F_), PUSH(OPT(STR), some(s(''))), PUSH(OPT(STR), some(s('w'))),
               PUSH(OPT(STR), none), ('UPDATEK',), ('MEM',), ('GETK',), ('GET_AND_UPDATE',), ('SIZE',), DUP(1), DUP(2), DUP(3), DROP(1),
               ('ITER', (DROP(1),)), ('MAP', (('CDR',), ('SIZE',)))])
